@@ -88,7 +88,7 @@ func (prop) Describe() core.Description {
 		RealComponents: []string{"go-geom root package (constructors, Push, accessors)", "encoding/wkb", "encoding/ewkb", "encoding/wkbcommon", "encoding/wkbhex", "encoding/ewkbhex", "wkb/ewkb database/sql Scanner/Valuer wrappers", "stdlib io, encoding/binary, bytes, encoding/hex"},
 		StubComponents: []string{"io.Writer (simio.Writer: failure offset, short/whole-call, sticky/transient; optionally also io.ByteWriter or io.StringWriter)", "io.Reader (simio.Reader: chunking, stalls, data+EOF, error at offset, truncation; optionally also io.ByteReader)", "database/sql driver (Scan/Value are called directly)"},
 		FaultKinds:     []string{"write-fail-sticky-short", "write-fail-sticky-whole", "write-fail-transient", "read-split", "read-stall", "read-data+eof", "read-error", "read-error-with-data", "read-truncate"},
-		Probes:         []string{"probe:error-inside-count", "probe:untyped-wrapper-value", "probe:split-inside-type-word", "probe:stall-before-byte-order", "probe:srid>=2^31", "probe:xdr+zm+empty-member", "probe:nested-collection", "probe:mixed-layout-collection", "probe:empty-point", "probe:rejected-unsupported-layout", "probe:rejected-empty-point", "probe:concatenated>=2", "probe:enum-capped", "probe:member-srid-round-trip", "probe:result-rechecked-after-later-calls", "probe:error-kind-temporary", "probe:error-kind-timeout", "probe:error-kind-unexpected-eof", "probe:error-kind-closed-pipe", "probe:error-kind-no-progress", "probe:element-limits-configured", "probe:wrapper-scanned-twice", "probe:wkb-of-geometry-with-srid", "probe:reader-with-ReadByte", "probe:writer-with-byte", "probe:writer-with-string"},
+		Probes:         []string{"probe:error-inside-count", "probe:null-through-wrapper", "probe:untyped-wrapper-value", "probe:split-inside-type-word", "probe:stall-before-byte-order", "probe:srid>=2^31", "probe:xdr+zm+empty-member", "probe:nested-collection", "probe:mixed-layout-collection", "probe:empty-point", "probe:rejected-unsupported-layout", "probe:rejected-empty-point", "probe:concatenated>=2", "probe:enum-capped", "probe:member-srid-round-trip", "probe:result-rechecked-after-later-calls", "probe:error-kind-temporary", "probe:error-kind-timeout", "probe:error-kind-unexpected-eof", "probe:error-kind-closed-pipe", "probe:error-kind-no-progress", "probe:element-limits-configured", "probe:wrapper-scanned-twice", "probe:wkb-of-geometry-with-srid", "probe:reader-with-ReadByte", "probe:writer-with-byte", "probe:writer-with-string"},
 	}
 }
 
@@ -1316,6 +1316,22 @@ func wrappers(res *core.Result, log *core.Log, lib wkbadapt.Lib, s *Scenario, e 
 	if err == nil {
 		res.Fail("non-bytes-accepted", "non-bytes-accepted", "Scan of a string value reported no error")
 		return false
+	}
+	// SQL NULL into a wrapper that held this geometry: afterwards the wrapper
+	// holds nothing and hands NULL back
+	if s.Codec.EWKB && e.g != nil {
+		var valid bool
+		var val any
+		var nerr error
+		if p := core.Guard(func() { valid, val, nerr = wkbadapt.NullRoundTrip(e.m.T, e.g) }); p != "" {
+			res.Fail("panic", "panic:scan:"+core.PanicSite(p), "Scan(nil) / Value panicked: %s", p)
+			return false
+		}
+		if nerr != nil || valid || val != nil {
+			res.Fail("null-not-kept", "null-not-kept:"+e.m.T, "after Scan(nil) into a %s wrapper that held a geometry: Valid() = %v, Value() = %v, error %v (want invalid, nil, no error)", e.m.T, valid, val, nerr)
+			return false
+		}
+		res.Count("probe:null-through-wrapper", 1)
 	}
 	// the error a caller gets can be rendered (twice, to the same text)
 	var m1, m2 string
